@@ -191,13 +191,23 @@ fn resolve_ray(spec: &RaySpec, set: &ElemSet) -> RayD {
                     ora::to_global(p.tilt as f64, p.azimuth as f64, ora::v3(&p.position), [lx, ly, 0.0])
                 }
             };
-            let of = ora::v3(o);
+            let mut of = ora::v3(o);
             let d = ora::sub(target, of);
             let d = if ora::norm(d) < 1e-6 { [0.0, 1.0, 0.0] } else { ora::unit(d) };
+            // one aimed ray in ten at a polygon starts a fraction of a millimetre to a few millimetres in front of the
+            // plane (points of a surface lying just off another one: a window flush with a reveal, a shade touching a wall)
+            let mut o = o.clone();
+            if matches!(set, ElemSet::Polys(_)) && *fz >= 0.9 {
+                let dist = [3e-4f64, 5e-4, 8e-4, 1.5e-3, 4e-3][(*idx as usize / 8) % 5];
+                // distance measured along the ray
+                of = [target[0] - dist * d[0], target[1] - dist * d[1], target[2] - dist * d[2]];
+                o = P3 { x: of[0] as f32, y: of[1] as f32, z: of[2] as f32 };
+            }
+            let _ = of;
             // length of the direction vector: derived from the case (callers pass vectors of any length)
             let f = DIR_SCALES[(*idx as usize) % DIR_SCALES.len()] as f64;
             RayD {
-                o: o.clone(),
+                o,
                 d: P3 { x: (d[0] * f) as f32, y: (d[1] * f) as f32, z: (d[2] * f) as f32 },
             }
         }
@@ -343,6 +353,9 @@ fn check_poly_ray(h: &CaseH, c: &PolyRayCase) -> Verdict {
             }
             ora::Hit::Yes(t) => {
                 h.class("hit");
+                if t < 1e-3 {
+                    h.class("hit/origin-within-1mm-of-the-plane");
+                }
                 decided_in_bbox = true;
                 match code {
                     None => {
@@ -396,13 +409,13 @@ pub fn run(args: &Args) -> ! {
     let ctx = Ctx::new(ID, "exploration", args);
     let t = ctx.tier();
     ctx.rule("bvh: generated sets of 0..200 boxes / posed polygons (random, k duplicates, shared centre, flat boxes) x leaf in {1,2,4,30} x 4-10 rays (free, axis-parallel, aimed at an element); built and queried in a worker process under a 10 s watchdog; oracle = test every element. Non-trivial: set larger than the leaf size and at least one ray hits.");
-    ctx.rule("poly_ray: simple polygons with 3-12 corners (rectangles, star-shaped, L) in random poses x rays; oracle = exact f64 ray/plane/even-odd with a 1 mm (or 1e-5/|n.d|) don't-care band; bounding box contains every exact corner. Non-trivial: a decided crossing inside the polygon's bounding box.");
+    ctx.rule("poly_ray: simple polygons with 3-12 corners (rectangles, star-shaped, L) in random poses x rays (free, or aimed at a point of the polygon's bounding rectangle; one aimed ray in ten starts 0.3 to 4 mm in front of the plane, measured along the ray); oracle = exact f64 ray/plane/even-odd with a 1 mm (or 1e-5/|n.d|) don't-care band; bounding box contains every exact corner. Non-trivial: a decided crossing inside the polygon's bounding box.");
     ctx.assume("rustc/std f64 arithmetic; proptest RNG and shrinker; serde_json for the worker protocol");
     ctx.replay_regressions(replay_one);
     ctx.run_prop("bvh_boxes", t.pick(150_000, 2_000_000), boxes_case, check_bvh);
     ctx.run_prop("bvh_polys", t.pick(60_000, 1_000_000), polys_case, check_bvh);
     ctx.run_prop("poly_ray", t.pick(1_000_000, 10_000_000), poly_ray_case, check_poly_ray);
-    for c in ["bvh_boxes/size/0", "bvh_boxes/size/<=leaf", "bvh_boxes/size/>leaf", "bvh_boxes/boxes/duplicates", "bvh_boxes/boxes/shared_centre", "bvh_boxes/ray/hit", "bvh_boxes/ray/miss", "poly_ray/hit", "poly_ray/miss"] {
+    for c in ["bvh_boxes/size/0", "bvh_boxes/size/<=leaf", "bvh_boxes/size/>leaf", "bvh_boxes/boxes/duplicates", "bvh_boxes/boxes/shared_centre", "bvh_boxes/ray/hit", "bvh_boxes/ray/miss", "poly_ray/hit", "poly_ray/miss", "poly_ray/hit/origin-within-1mm-of-the-plane"] {
         ctx.require_class(c);
     }
     super::c13b::run_reveals(&ctx);
